@@ -19,6 +19,37 @@ CLAIMED = {
 
 NOT_APPLICABLE = {
 }
+SCRATCH_NOTE = ("Trusted: rustc, Kani 0.68 / CBMC 6.11 / CaDiCaL, the harness oracles (transcriptions of the manual). Source is copied from /repo's working tree "
+                "into a scratch crate on every run with one appended `mod verif_h;` line per module; rand/chrono are environment stubs. ")
+VSHIM_NOTE = ("Mode vshim additionally replaces String/Vec/VecDeque/HashMap/BTreeMap/Rc<str>/Arc by bounded array-backed models (capacities: 8-byte strings, "
+              "6-element vectors, 4-entry maps under Kani), adds #[repr(u8)] to the enums and stubs core::mem::swap with a typed swap; the models are validated by "
+              "running the repository's own 95 tests on the shimmed build (vlib/validate.py). Capacity overflow inside a harness is reported as inconclusive.")
+CLAIMED.update({
+    "C02": (
+        "Bounded model checking of the real operator / conversion / numeric-function code over ALL operand bit patterns of every Integer/Single/Double type pair: "
+        "result type follows the documented promotion, value equals the operation carried out at the promoted type (bit-exact), '/' on Integers is computed in Single, "
+        "\\, MOD and the logical operators work on floor-converted 16-bit Integers (truth tables bit by bit), relational operators yield exactly 0 or -1, "
+        "non-numeric operands raise TYPE MISMATCH. Claimed for these kernels only: precedence climbing, literal text->number and assignment are outside this check (DESIGN.md §4 C02).",
+        SCRATCH_NOTE + "Float multiplication/division with both operands symbolic is checked per type pair (thorough tier); the quick tier checks * / \\ MOD with a symbolic "
+        "left operand against two concrete right operands per type pair. powf/powi values are not asserted (libm).",
+        "Kani/CBMC bounded model checking of the compiled source, symbolic operands of every numeric type pair, native replay of counterexamples",
+        "§4 C02"),
+    "C12": (
+        "One-step obligations from an arbitrary bounded state, decided by the solver: Var::clear leaves no variable, no array dimension and all 26 DEFtype entries at the "
+        "start-up default for every one of the 4^26 type tables; RUN compiles to exactly [CLEAR, JUMP n]. Any session history ends in one of these steps, so histories of any length are covered "
+        "by the step; that the whole run after the reset equals a fresh run (composition with codegen/link) is outside the claim.",
+        SCRATCH_NOTE + VSHIM_NOTE,
+        "Kani/CBMC bounded model checking, inductive one-step obligation from a symbolic pre-state",
+        "§4 C12"),
+    "C13": (
+        "One-step obligations of the interrupt/STOP/END/CONT bookkeeping from an arbitrary state (all 10 VM states, symbolic pc / entry address / stack contents): interrupt() saves exactly the "
+        "interrupted state and position when inside the program, END/STOP save a continuation exactly when inside the program, CONT restores state and pc and consumes the continuation, a direct "
+        "statement never disturbs a saved continuation, BREAK is reported once and leaves the VM stopped. execute()-level harnesses use a concrete control skeleton (which opcode, which position) with symbolic data. "
+        "Quantum independence over compiled programs is outside this check.",
+        SCRATCH_NOTE + VSHIM_NOTE,
+        "Kani/CBMC bounded model checking, one VM step from a symbolic pre-state",
+        "§4 C13"),
+})
 
 ALL = ["C%02d" % i for i in range(1, 21)]
 
